@@ -562,7 +562,7 @@ def run(ck):
         ck.violation({"broken_obligation": "forbidden tokens in the Coq development", "hits": forb}, nofail=True)
     work = ck.work
     corr_broken = []
-    dist = {"kinds": {}, "positions": {}, "ops": {}, "backends": {"adf": 0, "hdf5": 0}, "max_elements": 0}
+    dist = {"kinds": {}, "positions": {}, "ops": {}, "backends": {"adf": 0, "hdf5": 0}, "note": "counts of histories per kind / feature and of ops"}
 
     # ---- cg_npe table
     lines, outcome = run_impl(exe, [("npe",)], os.path.join(work, "npe.cgns"), "adf")
